@@ -17,6 +17,10 @@ type InstCfg struct {
 	TR   uint8  // MapPollard.TotalRows set before first use
 	Mode string // partial maps: which added leaves get Remember: all | even | none
 	NoRT bool   // twin: never serialized/restored; the preceding instance is compared with it (C13)
+	// SizeQ (Pollard): after which operations of the history SerializeSize / GetTotalCount are
+	// queried: "" never | block | undo | all. The oracle's own query comes at the end of every
+	// history, so the four values are the query schedules closed under operation kind.
+	SizeQ string
 }
 
 func (c InstCfg) Name() string {
@@ -31,6 +35,9 @@ func (c InstCfg) Name() string {
 		}
 		return fmt.Sprintf("MapPollard(partial:%s,TR=%d)", c.Mode, c.TR)
 	case "pollard":
+		if c.SizeQ != "" {
+			return "Pollard[size queried after " + c.SizeQ + "]"
+		}
 		return "Pollard"
 	}
 	return "Stump"
@@ -106,7 +113,13 @@ type HistOracle struct {
 	Roots   bool // C01
 	Proofs  bool // C02
 	Lookups bool // C10
-	Twin    bool // C13: instance i is compared with its never-serialized twin i+1 (GetHash on every position, leaf positions)
+	// Stale (C03): the honest proofs of the neighbouring state (the state before the last block, or
+	// the state the last undo left) are offered to every instance; whatever is accepted must be true
+	// in the current state. Finds verifiers that answer from data of an earlier state.
+	Stale bool
+	// Sizes (C13): SerializeSize and the returned counts equal the bytes WriteTo / Write produce.
+	Sizes bool
+	Twin  bool // C13: instance i is compared with its never-serialized twin i+1 (GetHash on every position, leaf positions)
 	// OnlyAfter restricts reporting to states whose history contains this op kind
 	// ("undo" for C06, "roundtrip" for C13); "" reports everywhere.
 	OnlyAfter string
@@ -145,6 +158,8 @@ type histModel struct {
 	verBud  int
 	hasUndo bool
 	hasRT   bool
+	// the state next to the current one across the last operation (Stale oracle)
+	neighbour *ref.State
 }
 
 func (m *histModel) AbstractKey() string { return m.s.Key() }
@@ -194,9 +209,20 @@ func (f *HistFamily) run(x *Exec, hist []Op) ([]*inst, *histModel, bool) {
 	md := &histModel{undoBud: f.UndoBud, rtBud: f.RTBud, verBud: f.VerBud}
 	ok := true
 	for _, op := range hist {
+		before := md.s.Clone()
 		if !f.apply(x, insts, md, op) {
 			ok = false
 			break
+		}
+		md.neighbour = nil
+		if op.Kind == "block" || op.Kind == "undo" {
+			md.neighbour = &before
+		}
+		for _, in := range insts {
+			if in.pol != nil && !in.broken && (in.cfg.SizeQ == "all" || in.cfg.SizeQ == op.Kind) {
+				_ = in.pol.SerializeSize()
+				_ = in.pol.GetTotalCount()
+			}
 		}
 	}
 	return insts, md, ok
@@ -478,6 +504,46 @@ func (f *HistFamily) observe(x *Exec, insts []*inst, md *histModel, report bool)
 			}
 			if !eqH(roots, L.Roots) {
 				x.Report(prop, "roots differ from reference on "+in.cfg.Class(), fmt.Sprintf("%s: want %s got %s", in.cfg.Name(), shortHs(L.Roots), shortHs(roots)))
+			}
+			if in.m != nil {
+				// GetStump is the third way a map forest reports its leaf count and roots
+				st := in.m.GetStump()
+				x.HoldH(in.cfg.Name()+".GetStump result", st.Roots)
+				if st.NumLeaves != md.s.Total() || !eqH(st.Roots, L.Roots) {
+					x.Report(prop, "GetStump differs from reference on "+in.cfg.Class(), fmt.Sprintf("%s: want %d %s got %d %s", in.cfg.Name(), md.s.Total(), shortHs(L.Roots), st.NumLeaves, shortHs(st.Roots)))
+				}
+			}
+		}
+	}
+	if f.Or.Stale && md.neighbour != nil {
+		evals += f.observeStale(x, prop, insts, md, L)
+	}
+	if f.Or.Sizes {
+		for _, in := range insts {
+			if in.broken || in.stump != nil {
+				continue
+			}
+			evals++
+			var buf bytes.Buffer
+			if in.pol != nil {
+				size := in.pol.SerializeSize()
+				var n int64
+				if err := safe(func() error { var e error; n, e = in.pol.WriteTo(&buf); return e }); err != nil {
+					x.Report(prop, "WriteTo failed on Pollard", err.Error())
+					continue
+				}
+				if int(n) != buf.Len() || size != buf.Len() {
+					x.Report(prop, "Pollard write byte counts disagree", fmt.Sprintf("%s: returned %d, produced %d, SerializeSize %d", in.cfg.Name(), n, buf.Len(), size))
+				}
+			} else if in.m != nil {
+				var n int
+				if err := safe(func() error { var e error; n, e = in.m.Write(&buf); return e }); err != nil {
+					x.Report(prop, "Write failed on "+in.cfg.Class(), err.Error())
+					continue
+				}
+				if n != buf.Len() {
+					x.Report(prop, "MapPollard write byte count disagrees", fmt.Sprintf("%s: returned %d, produced %d", in.cfg.Name(), n, buf.Len()))
+				}
 			}
 		}
 	}
@@ -797,4 +863,51 @@ func describeProbe(kind string, slot int, md *histModel, in *inst) string {
 		return "an untracked live leaf"
 	}
 	return "a tracked live leaf"
+}
+
+// observeStale: see HistOracle.Stale.
+func (f *HistFamily) observeStale(x *Exec, prop string, insts []*inst, md *histModel, L *ref.Layout) int64 {
+	ns := *md.neighbour
+	LN := ref.APILayout(ns)
+	var evals int64
+	for _, set := range subsets(ns.Live(), false) {
+		proof := LN.Proof(set)
+		hs := ref.Hashes(set)
+		for _, in := range insts {
+			if in.broken {
+				continue
+			}
+			evals++
+			var err error
+			var LT *ref.Layout
+			if in.stump != nil {
+				st := u.Stump{Roots: append([]Hash(nil), in.stump.Roots...), NumLeaves: in.stump.NumLeaves}
+				_, err = x.Verify(st, hs, proof)
+			} else {
+				err = x.VerifyAcc(in.cfg.Name(), in.acc, hs, proof, false)
+				if in.m != nil {
+					if tr := in.m.TotalRows; tr > L.R && tr <= 63 {
+						LT = ref.LayoutOf(md.s, tr)
+					}
+				}
+			}
+			if err != nil {
+				continue
+			}
+			for i, t := range proof.Targets {
+				at, ok := L.At[t]
+				if ok && at == hs[i] {
+					continue
+				}
+				if LT != nil {
+					if at2, ok2 := LT.At[t]; ok2 && at2 == hs[i] {
+						continue
+					}
+				}
+				x.Report(prop, "false claim accepted by "+in.cfg.Class()+" [the claim was true in the neighbouring state of the history]", fmt.Sprintf("%s in state %s: claim hash %x at position %d (targets %v); it held in state %s", in.cfg.Name(), md.s.Key(), hs[i][:4], t, proof.Targets, ns.Key()))
+				break
+			}
+		}
+	}
+	return evals
 }
